@@ -191,9 +191,11 @@ def step (s : S) : Rec → S
       match curThread s pi tid with
       | none => newThread s pi tid (some name) time
       | some i => modT s i (fun t => { t with name := some name })
-  | .mmap2 pid tid _ _ _ _ path _ =>
+  | .mmap2 pid tid _ _ _ exec path _ =>
     -- a mapping record mentions a thread: it exists (same on-demand rule as samples)
-    if s.cur = s.ref || path.isEmpty then s else ensureThread s pid tid
+    let s := if s.cur = s.ref || path.isEmpty then s else ensureThread s pid tid
+    -- an executable mapping mentions a process: it exists (even before the first sample / without a path)
+    if exec then (ensureProc s pid).1 else s
 
 def run (ref : Nat) (rs : List Rec) : S := rs.foldl step { ref, cur := ref }
 
